@@ -222,11 +222,12 @@ theorem field_extract (a b c d e f g T : Nat) (h1 : a < 8) (h2 : b < 65536) (h3 
 
 /-- **QR payload: `parse (as_str q) = q`** for every payload within the field widths, with any optional-TLV
 bytes, provided the scratch buffer holds the decoded bytes -/
-theorem parse_encode (q : Qr) (hwf : WF q) (cap : Nat) (hcap : 11 + q.tlv.length ≤ cap) :
+theorem parse_encode (q : Qr) (hwf : WF q) (hver : q.version = 0) (cap : Nat) (hcap : 11 + q.tlv.length ≤ cap) :
     ∃ cs, encode q = .ok cs ∧ parse cs cap = .ok q := by
   have hF := fixedNum_lt q hwf
   obtain ⟨h1, h2, h3, h4, h5, h6, h7, h8⟩ := hwf
   have hfl : ¬ (q.flow > 2) := by omega
+  have hver0 : ¬ (q.version ≠ 0) := by omega
   have hr : q.rendezvous % 8 = q.rendezvous := by omega
   have hT := fromLe_lt q.tlv h8
   generalize hTd : fromLe q.tlv = T at hT
@@ -285,7 +286,7 @@ theorem parse_encode (q : Qr) (hwf : WF q) (cap : Nat) (hcap : 11 + q.tlv.length
       rd 0 3 (by decide), rd 3 16 (by decide), rd 19 16 (by decide), rd 35 2 (by decide), rd 37 8 (by decide),
       rd 45 12 (by decide), rd 57 27 (by decide), rd 84 4 (by decide),
       VERSION_BITS, VID_BITS, PID_BITS, FLOW_BITS, RENDEZVOUS_BITS, DISC_BITS, PASS_BITS, PADDING_BITS, Consts.c17QrVersionBits, Consts.c17QrVidBits, Consts.c17QrPidBits, Consts.c17QrFlowBits, Consts.c17QrRendezvousBits, Consts.c17QrDiscBits, Consts.c17QrPassBits, Consts.c17QrPaddingBits, hdrop,
-      g1, g2, g3, g4, g5, g6, g7, hfl, hr]
+      g1, g2, g3, g4, g5, g6, g7, hfl, hr, hver0]
 
 end Codec.QrPayload
 
@@ -313,6 +314,7 @@ theorem parse_np (s : List Nat) (cap : Nat) : NoPanic (parse s cap) := by
           split
           · exact NoPanic.err (by decide)
           · refine NoPanic.bind (readBits_np _ _ _) (fun _ => ?_)
+            refine NoPanic.ite (NoPanic.err (by decide)) ?_
             refine NoPanic.bind (readBits_np _ _ _) (fun _ => ?_)
             refine NoPanic.bind (readBits_np _ _ _) (fun _ => ?_)
             refine NoPanic.bind (readBits_np _ _ _) (fun _ => ?_)
@@ -328,10 +330,11 @@ theorem parse_rejects_prefix (s : List Nat) (cap : Nat) (h : stripPrefix s = non
     parse s cap = .error .invalidData := by
   simp [parse, h, bind, Except.bind]
 
-/-- a body containing a character outside the base-38 alphabet, or of an impossible length class, is refused -/
+/-- a body containing a character outside the base-38 alphabet, or of an impossible length class, is refused:
+`InvalidData`, or `BufferTooSmall` when the bytes decoded before the bad chunk already exceed the scratch buffer -/
 theorem parse_rejects_bad_base38 (body : List Nat) (cap : Nat)
     (h : (∃ c ∈ body, c ∉ Base38.alphabet) ∨ body.length % 5 = 1 ∨ body.length % 5 = 3) :
-    ∃ e, parse (PREFIX ++ body) cap = .error e := by
+    parse (PREFIX ++ body) cap = .error .invalidData ∨ parse (PREFIX ++ body) cap = .error .bufferTooSmall := by
   have hsp : stripPrefix (PREFIX ++ body) = some body := rfl
   have herr : (Base38.decode body).2 = some .invalidData := by
     rcases h with ⟨c, hc, hbad⟩ | hl
@@ -347,17 +350,18 @@ theorem parse_rejects_bad_base38 (body : List Nat) (cap : Nat)
     rw [hd] at herr; simp only at herr; subst herr
     simp only
     split
-    · exact ⟨_, rfl⟩
-    · exact ⟨_, rfl⟩
+    · exact Or.inr rfl
+    · exact Or.inl rfl
 
-/-- a body that decodes to fewer than 11 bytes is refused -/
+/-- a body that decodes to fewer than 11 bytes is refused (`BufferTooSmall` only if the buffer is smaller still) -/
 theorem parse_rejects_short (body bytes : List Nat) (cap : Nat) (hd : Base38.decode body = (bytes, none))
-    (hl : bytes.length < 11) : ∃ e, parse (PREFIX ++ body) cap = .error e := by
+    (hl : bytes.length < 11) :
+    parse (PREFIX ++ body) cap = .error .invalidData ∨ parse (PREFIX ++ body) cap = .error .bufferTooSmall := by
   have hsp : stripPrefix (PREFIX ++ body) = some body := rfl
   have htb : TOTAL_BYTES = 11 := by decide
   simp only [parse, hsp, bind, Except.bind, pure, Except.pure, hd]
   split
-  · exact ⟨_, rfl⟩
+  · exact Or.inr rfl
   · simp [htb, hl]
 
 /-- the undefined commissioning flow (value 3 of the 2-bit field) is refused -/
@@ -373,5 +377,82 @@ theorem parse_rejects_flow (body bytes : List Nat) (cap : Nat) (hd : Base38.deco
   simp [parse, hsp, hd, bind, Except.bind, pure, Except.pure, hl1, hl2,
     rd 0 3 (by decide), rd 3 16 (by decide), rd 19 16 (by decide), rd 35 2 (by decide),
     VERSION_BITS, VID_BITS, PID_BITS, FLOW_BITS, hflow, Consts.c17QrVersionBits, Consts.c17QrVidBits, Consts.c17QrPidBits, Consts.c17QrFlowBits, Consts.c17QrRendezvousBits, Consts.c17QrDiscBits, Consts.c17QrPassBits, Consts.c17QrPaddingBits]
+
+/-- **a version field other than 0 (a future payload format) is refused** (fix `C17-qr-version-accepted`) -/
+theorem parse_rejects_version (body bytes : List Nat) (cap : Nat) (hd : Base38.decode body = (bytes, none))
+    (hb : ∀ b ∈ bytes, b < 256) (hl : 11 ≤ bytes.length) (hcap : bytes.length ≤ cap)
+    (hver : fromLe bytes % 2 ^ 3 ≠ 0) : parse (PREFIX ++ body) cap = .error .invalidData := by
+  have hsp : stripPrefix (PREFIX ++ body) = some body := rfl
+  have htb : TOTAL_BYTES = 11 := by decide
+  have rd : readBits bytes 0 3 = .ok (fromLe bytes / 2 ^ 0 % 2 ^ 3) := readBits_eq bytes 0 3 hb (by omega)
+  have hl1 : ¬ (bytes.length > cap) := by omega
+  have hl2 : ¬ (bytes.length < TOTAL_BYTES) := by rw [htb]; omega
+  have hv : fromLe bytes % 8 ≠ 0 := by simpa using hver
+  simp [parse, hsp, hd, bind, Except.bind, pure, Except.pure, hl1, hl2, rd, VERSION_BITS, Consts.c17QrVersionBits]
+  intro h0
+  exact absurd h0 hv
+
+/-- whatever `parse` accepts has version 0 and a defined commissioning flow -/
+theorem parse_ok_version_flow (s : List Nat) (cap : Nat) (q : Qr) (h : parse s cap = .ok q) :
+    q.version = 0 ∧ q.flow ≤ 2 := by
+  unfold parse at h
+  cases hp : stripPrefix s with
+  | none => rw [hp] at h; simp [bind, Except.bind] at h
+  | some body =>
+    rw [hp] at h
+    simp only [bind, Except.bind, pure, Except.pure] at h
+    cases hdec : Base38.decode body with
+    | mk bytes err =>
+      rw [hdec] at h
+      simp only at h
+      split at h
+      · cases h
+      · cases err with
+        | some e => cases h
+        | none =>
+          simp only at h
+          split at h
+          · cases h
+          · cases h1 : readBits bytes 0 VERSION_BITS with
+            | error e => rw [h1] at h; cases h
+            | ok version =>
+              rw [h1] at h; simp only at h
+              split at h
+              · cases h
+              · rename_i hv
+                cases h2 : readBits bytes 3 VID_BITS with
+                | error e => rw [h2] at h; cases h
+                | ok vid =>
+                  rw [h2] at h; simp only at h
+                  cases h3 : readBits bytes 19 PID_BITS with
+                  | error e => rw [h3] at h; cases h
+                  | ok pid =>
+                    rw [h3] at h; simp only at h
+                    cases h4 : readBits bytes 35 FLOW_BITS with
+                    | error e => rw [h4] at h; cases h
+                    | ok flow =>
+                      rw [h4] at h; simp only at h
+                      split at h
+                      · cases h
+                      · rename_i hf
+                        cases h5 : readBits bytes 37 RENDEZVOUS_BITS with
+                        | error e => rw [h5] at h; cases h
+                        | ok rdv =>
+                          rw [h5] at h; simp only at h
+                          cases h6 : readBits bytes 45 DISC_BITS with
+                          | error e => rw [h6] at h; cases h
+                          | ok disc =>
+                            rw [h6] at h; simp only at h
+                            cases h7 : readBits bytes 57 PASS_BITS with
+                            | error e => rw [h7] at h; cases h
+                            | ok pass =>
+                              rw [h7] at h; simp only at h
+                              cases h8 : readBits bytes 84 PADDING_BITS with
+                              | error e => rw [h8] at h; cases h
+                              | ok pad =>
+                                rw [h8] at h; simp only at h
+                                injection h with h
+                                subst h
+                                exact ⟨by simpa using hv, by simp only; omega⟩
 
 end Codec.QrPayload
